@@ -204,7 +204,9 @@ def end_to_end(tier, seed):
 # ------------------------------------------------------------------ C09 / C12 / C13 / C16: what each phase was actually given
 class _InlinePool:
     """same interface as the pool the main loop creates; runs the task at submission in this process so that what
-    the optimiser is handed can be observed.  The library code is untouched."""
+    the optimiser is handed can be observed.  The library code is untouched.  Like multiprocessing.Pool it says how many
+    workers it has (`_processes`): every other run pretends to have three."""
+    _processes = 1
     class _Task:
         def __init__(self, f, a, k):
             try:
@@ -266,7 +268,13 @@ def phase_trace(tier, seed):
         trace['order'].append('statistics')
         return orig['stats'](model, data)
 
-    main_loop._init_task_pool = lambda n: _InlinePool()
+    pool_workers = [1]
+
+    def make_pool(n):
+        p_ = _InlinePool()
+        p_._processes = pool_workers[0]
+        return p_
+    main_loop._init_task_pool = make_pool
     graphical_lasso.optimize_markov_random_fields = opt
     graphical_lasso._setup_optimization_task = task
     cluster_maintenance.repopulate_empty_clusters = rep
@@ -287,6 +295,7 @@ def phase_trace(tier, seed):
             lam = np.full((nw, nw), 0.07) if c['lam'] == 'matrix' else c['lam']
             trace.clear()
             trace.update(rounds=[], order=[], predicted=[])
+            pool_workers[0] = 3 if (cases + incomplete) % 2 else 1
             random.seed(seed)
             np.random.seed(seed)
             try:
@@ -333,6 +342,7 @@ def phase_trace(tier, seed):
                     want = np.atleast_2d(np.cov(rows, rowvar=False, bias=c['biased']))      # the estimator the USER asked for
                     tol = 1e-9 * max(1.0, float(np.max(np.abs(want))))
                     if t['cov'].shape != want.shape or float(np.max(np.abs(t['cov'] - want))) > tol:
+                        bad.append(('C09 the statistics and optimisation phases of a round did not work on the current labelling', 'round %d cluster %d' % (n + 1, kk)))
                         bad.append(('C12 covariance handed to the optimiser is not the requested covariance of the windows labelled k',
                                     'round %d cluster %d (%s estimator requested, %d windows)' % (n + 1, kk, 'biased' if c['biased'] else 'unbiased', rows.shape[0])))
                     if float(np.max(np.abs(np.ravel(t['mean']) - rows.mean(axis=0)))) > 1e-9 * max(1.0, float(np.max(np.abs(rows)))):
@@ -509,16 +519,18 @@ print(json.dumps(out))
 ''' % (REPO_SRC, seed)
     res = {}
     for mode, env_extra in (('interpreted', {'NUMBA_DISABLE_JIT': '1'}), ('jit', {'NUMBA_DISABLE_JIT': '0'}),
-                            ('jit-4-threads', {'NUMBA_DISABLE_JIT': '0', 'NUMBA_NUM_THREADS': '4'})):
+                            ('jit-4-threads', {'NUMBA_DISABLE_JIT': '0', 'NUMBA_NUM_THREADS': '4'}),
+                            ('numba-absent', {'NUMBA_DISABLE_JIT': '1', 'PYVC_HIDE_NUMBA': '1'})):
         env = dict(os.environ)
         env.update(env_extra)
-        p = subprocess.run(['/venv/bin/python', '-c', code], capture_output=True, text=True, env=env, timeout=900)
+        prog = code if mode != 'numba-absent' else "import sys\nsys.modules['numba'] = None      # import numba fails: the package's fallback decorators are used\n" + code
+        p = subprocess.run(['/venv/bin/python', '-c', prog], capture_output=True, text=True, env=env, timeout=900)
         res[mode] = (p.stdout.strip().splitlines() or ['ERROR ' + p.stderr[-400:]])[-1]
     fails = []
     if len(set(res.values())) != 1:
         fails.append(dict(what='jit-differential:modes disagree', detail=json.dumps(res)[:800], input=dict(seed=seed)))
     return dict(kind='bounded', name='jit_differential', cases=len(res), failing=fails,
-                bound='labelling kernel on 4 shapes x 3 beta forms, one likelihood table and three complete runs (float64, float32, int64 series), in 3 separate processes (interpreted, JIT, JIT with 4 threads)')
+                bound='labelling kernel on 4 shapes x 3 beta forms, one likelihood table and three complete runs (float64, float32, int64 series), in 4 separate processes (interpreted, JIT, JIT with 4 threads, Numba not importable)')
 
 
 # ------------------------------------------------------------------ C19: read-only inputs
@@ -614,7 +626,26 @@ def readonly_inputs(tier, seed):
 
 
 # ------------------------------------------------------------------ C20: fault injection
-_FI = dict(counter=None, target=-1, orig=None)
+_FI = dict(counter=None, target=-1, orig=None, exc=ValueError)
+
+
+class InjectedIndexError(IndexError):
+    pass
+
+
+class InjectedAttributeError(AttributeError):
+    pass
+
+
+class InjectedKeyError(KeyError):
+    pass
+
+
+class InjectedArithmeticError(ArithmeticError):
+    pass
+
+
+_FAULT_TYPES = [ValueError, InjectedIndexError, InjectedAttributeError, InjectedKeyError, InjectedArithmeticError, TypeError]
 
 
 def _failing_task(*a, **k):
@@ -624,7 +655,7 @@ def _failing_task(*a, **k):
         counter.value += 1
         n = counter.value
     if n == _FI['target'] + 1:
-        raise ValueError("injected fault at optimisation task %d" % _FI['target'])
+        raise _FI['exc']("injected fault at optimisation task %d" % _FI['target'])
     return _FI['orig'](*a, **k)
 
 
@@ -651,7 +682,8 @@ def fault_injection(tier, seed):
             os.environ.pop('CUPCAKE_ENABLE_MULTIPROCESSING', None)
         for target in targets:
             counter = multiprocessing.Value('i', 0)
-            _FI.update(counter=counter, target=target, orig=orig)
+            exc_type = _FAULT_TYPES[(target + (3 if mp_on else 0)) % len(_FAULT_TYPES)]
+            _FI.update(counter=counter, target=target, orig=orig, exc=exc_type)
             failing = _failing_task
             A.admm_optimize_theta = failing
             graphical_lasso.admm.admm_optimize_theta = failing
@@ -659,15 +691,17 @@ def fault_injection(tier, seed):
             try:
                 random.seed(seed)
                 np.random.seed(seed)
-                quiet(fast_ticc.ticc_labels, data, num_processors=2 if mp_on else 1, **kw)
+                if target % 2:
+                    quiet(fast_ticc.ticc_joint_labels, [data[:40], data[40:]], num_processors=2 if mp_on else 1, **kw)
+                else:
+                    quiet(fast_ticc.ticc_labels, data, num_processors=2 if mp_on else 1, **kw)
                 if counter.value > target:
                     fails.append(dict(what='fault:call returned a result after a failed task', detail='task %d' % target,
                                       input=dict(seed=seed, task=target, multiprocessing=mp_on)))
-            except ValueError as e:
-                if 'injected fault' not in str(e):
-                    fails.append(dict(what='fault:original error not propagated', detail=repr(e)[:200], input=dict(task=target)))
             except Exception as e:
-                fails.append(dict(what='fault:original error replaced', detail=repr(e)[:200], input=dict(task=target)))
+                if type(e) is not exc_type or 'injected fault' not in str(e):
+                    fails.append(dict(what='fault:original error replaced', detail='%s injected, %s surfaced' % (exc_type.__name__, repr(e)[:160]),
+                                      input=dict(task=target, multiprocessing=mp_on, exception=exc_type.__name__)))
             finally:
                 A.admm_optimize_theta = orig
                 graphical_lasso.admm.admm_optimize_theta = orig
@@ -693,7 +727,7 @@ def fault_injection(tier, seed):
             fails.append(dict(what='fault:wrong-kind input raised %s' % type(e).__name__, detail=repr(e)[:200], input={}))
         cases += 1
     return dict(kind='bounded', name='fault_injection', cases=cases, failing=fails,
-                bound='ValueError injected at optimisation task number %s of a 3-round run (single process%s), each followed by a clean call; wrong-kind input to both front ends; 120 s wall-clock limit per call'
+                bound='an exception (ValueError, IndexError, AttributeError, KeyError, ArithmeticError, TypeError in turn) injected at optimisation task number %s of a 3-round run (single process%s), each followed by a clean call; wrong-kind input to both front ends; 120 s wall-clock limit per call'
                       % (targets, ' and 2-process pool' if tier == 'thorough' else ''))
 
 
